@@ -24,6 +24,15 @@ DISPATCH_2D = {("S", "S"): "impl_access_scalar_scalar_fxn", ("A", "S"): "impl_ac
                ("V", "S"): "impl_access_range_scalar_fxn", ("B", "S"): "impl_access_range_scalar_fxn",
                ("S", "V"): "impl_access_scalar_range_fxn", ("S", "B"): "impl_access_scalar_range_fxn"}
 MAXSEL = 3
+DISPATCH_1D["K"] = DISPATCH_1D["B"]
+for (_a, _b), _f in list(DISPATCH_2D.items()):
+    DISPATCH_2D[(_a.replace("B", "K"), _b.replace("B", "K"))] = _f
+    DISPATCH_2D[(_a.replace("B", "K"), _b)] = _f
+    DISPATCH_2D[(_a, _b.replace("B", "K"))] = _f
+
+
+def mask_txt(n):
+    return "".join("1" if x else "0" for x in n)
 
 
 def slice_for(t):
@@ -54,6 +63,17 @@ def sel_code(pos, form, dim, n):
         c.append("{ let mut k = 0; while k < %d { if i%s[k] { if n%s < %d { sel%s[n%s] = k; } n%s += 1; } k += 1; } }" % (n, p, p, MAXSEL, p, p, p))
         c.append("kani::assume(n%s >= 1 && n%s <= %d);" % (p, p, MAXSEL))
         c.append("let iv%s = Value::MatrixBool(Matrix::DVector(Ref::new(DVector::from_vec(i%s.to_vec()))));" % (p, p))
+    elif form == "K":
+        # a CONCRETE mask (one harness per mask): the result length is then a constant for symbolic execution; the symbolic-mask
+        # form "B" gets no verdict for accepted reads because the output allocation has a symbolic size
+        bits = list(n)
+        pos_ = [k for k, bit in enumerate(bits) if bit]
+        assert 1 <= len(pos_) <= MAXSEL
+        c.append("let i%s: [bool; %d] = [%s];" % (p, len(bits), ", ".join("true" if x else "false" for x in bits)))
+        c.append("let ok%s = %s;" % (p, "true" if (len(bits) == dim) else "false"))
+        c.append("let n%s: usize = %d; let sel%s: [usize; %d] = [%s];" % (p, len(pos_), p, MAXSEL, ", ".join(
+            str(pos_[k]) if k < len(pos_) else "0" for k in range(MAXSEL))))
+        c.append("let iv%s = Value::MatrixBool(Matrix::DVector(Ref::new(DVector::from_vec(i%s.to_vec()))));" % (p, p))
     elif form == "A":
         assert dim <= MAXSEL
         c.append("let ok%s = true; let n%s: usize = %d; let sel%s: [usize; %d] = [%s];" % (p, p, dim, p, MAXSEL, ", ".join(
@@ -80,7 +100,7 @@ def gen(t, sform, shape, forms, lens, domain, tier):
     R, C = shape
     N = R * C
     dims = (N,) if len(forms) == 1 else (R, C)
-    if domain == "reject" and not any(f in "SV" or (f == "B" and n != d) for f, d, n in zip(forms, dims, lens)):
+    if domain == "reject" and not any(f in "SV" or (f == "B" and n != d) or (f == "K" and len(n) != d) for f, d, n in zip(forms, dims, lens)):
         return None          # `:` and masks of exactly the dimension's length always address existing elements
     fxn = DISPATCH_1D[forms[0]] if len(forms) == 1 else DISPATCH_2D[forms]
     b = [sym_array(t, "src", N)]
@@ -90,7 +110,7 @@ def gen(t, sform, shape, forms, lens, domain, tier):
         b += sel_code(pos, f, d, n)
     oks = " && ".join("ok%d" % p for p in range(len(forms)))
     ivs = ", ".join("iv%d" % p for p in range(len(forms)))
-    name = "c03_%s_%s%dx%d_%s" % (t.lower(), sform.lower(), R, C, "_".join("%s%s" % (f.lower(), n if f in "VB" else "") for f, n in zip(forms, lens)))
+    name = "c03_%s_%s%dx%d_%s" % (t.lower(), sform.lower(), R, C, "_".join("%s%s" % (f.lower(), (mask_txt(n) if f == "K" else n) if f in "VBK" else "") for f, n in zip(forms, lens)))
     if domain == "accept":
         b.append("kani::assume(%s);" % oks)
         b.append("kani::cover!(true, \"VP:reached-call\");")
@@ -140,17 +160,17 @@ def gen(t, sform, shape, forms, lens, domain, tier):
         b.append("  }")
         b.append("}")
     b.append("forget(ixarr); forget(sc);")
-    what = "x[%s]" % ",".join({"S": "i", "V": "[i..]", "B": "mask", "A": ":"}[f] + (str(n) if f in "VB" else "") for f, n in zip(forms, lens))
+    what = "x[%s]" % ",".join({"S": "i", "V": "[i..]", "B": "mask", "A": ":", "K": "mask="}[f] + ((mask_txt(n) if f == "K" else str(n)) if f in "VBK" else "") for f, n in zip(forms, lens))
     h = H(name + "_" + domain, "    " + "\n    ".join(b), WHERE, domain=domain,
-          key="%s/%s/%s/%s" % (fxn, sform, "".join("%s%s" % (f, n if f in "VB" else "") for f, n in zip(forms, lens)), domain),
+          key="%s/%s/%s/%s" % (fxn, sform, "".join("%s%s" % (f, (mask_txt(n) if f == "K" else n) if f in "VBK" else "") for f, n in zip(forms, lens)), domain),
           desc=("%s on a %dx%d %s %s: " % (what, R, C, t, sform)) + (
               "accepted; documented result shape; every element is the one the 1-based column-major model selects; source unchanged"
               if domain == "accept" else "an index that addresses no element (0, past the end, mask length != dimension): error or panic, never a value"),
           functions=["%s (src/interpreter/src/stdlib/access/matrix.rs: dispatch arms, output allocation)" % fxn,
                      "Access* struct solve/out via dyn MechFunction (access_* kernel macros)"],
           bounds="source %dx%d, all element values; index values: all usize; index vectors / masks of length %s"
-                 % (R, C, ",".join(str(n) for f, n in zip(forms, lens) if f in "VB") or "-"),
-          unwind=max([1] + [n for f_, n in zip(forms, lens) if f_ in "VB"] + [d for f_, d in zip(forms, dims) if f_ == "A"]) + 2, tier=tier, group=fxn, solver="kissat")
+                 % (R, C, ",".join((mask_txt(n) + " (concrete)" if f == "K" else str(n)) for f, n in zip(forms, lens) if f in "VBK") or "-"),
+          unwind=max([1] + [n for f_, n in zip(forms, lens) if f_ in "VB"] + [len(n) for f_, n in zip(forms, lens) if f_ == "K"] + [d for f_, d in zip(forms, dims) if f_ == "A"]) + 2, tier=tier, group=fxn, solver="kissat")
     h.slice = slice_for(t)
     h.heavy = True
     h.stub_kind = True
@@ -194,6 +214,23 @@ def plan(tier, seed):
     for sform, shape in (("RD", (1, 3)), ("MD", (2, 2))):
         hs.append(gen("u8", sform, shape, ("S",), (0,), "accept", "thorough"))
         hs.append(gen("u8", sform, shape, ("V",), (2,), "accept", "thorough"))
+    # accepted mask reads with CONCRETE masks (every non-empty mask of the dimension's length), elements symbolic
+    import itertools
+    kq = 0
+    for sform, shape in (("RD", (1, 3)), ("VD", (3, 1)), ("MD", (2, 2))):
+        N = shape[0] * shape[1]
+        for bits in itertools.product((True, False), repeat=N):
+            if not any(bits) or sum(bits) > MAXSEL:
+                continue
+            kq += 1
+            hs.append(gen(t, sform, shape, ("K",), (bits,), "accept", "quick" if kq % 6 == seed % 6 else "thorough"))
+    for forms, lens in ((("K", "S"), ((True, False), 0)), (("K", "S"), ((False, True), 0)), (("K", "S"), ((True, True), 0)),
+                        (("S", "K"), (0, (True, False, True))), (("S", "K"), (0, (False, True, False))), (("S", "K"), (0, (True, True, True))),
+                        (("A", "K"), (0, (True, False, True))), (("A", "K"), (0, (False, True, True))), (("K", "A"), ((False, True), 0)), (("K", "A"), ((True, True), 0)),
+                        (("K", "K"), ((True, True), (True, False, True))), (("K", "K"), ((False, True), (False, True, True))),
+                        (("V", "K"), (2, (True, False, True))), (("K", "V"), ((True, True), 2)), (("K", "V"), ((False, True), 2))):
+        kq += 1
+        hs.append(gen(t, "MD", (2, 3), forms, lens, "accept", "quick" if kq % 6 == seed % 6 else "thorough"))
     hs = [h for h in hs if h is not None]
     for h in hs:
         forms_ = h.key.split("/")[2]
